@@ -10,6 +10,10 @@
 #define BPM_CONTRACTS_H
 
 #define KV_BPM_ROWS 64
+/* largest pattern length covered by a query (the kernel itself takes 1..63); the quantified clauses expand to this many rows */
+#ifndef KV_BPM_MAXM
+#define KV_BPM_MAXM 63
+#endif
 int kv_C[KV_BPM_ROWS + 1];     /* ghost column: kv_C[r] = D[r][j]               */
 int kv_min;                    /* ghost: min over the columns seen so far of D[m] */
 
@@ -29,7 +33,7 @@ static void kv_col_step(uint8_t c, const uint8_t* p, int M)
         int r;
         int diag = kv_C[0];   /* D[r-1][j-1] */
         kv_C[0] = 0;
-        for(r = 1; r <= KV_BPM_ROWS - 1; r++){
+        for(r = 1; r <= KV_BPM_MAXM; r++){
                 if(r <= M){
                         int old = kv_C[r];
                         int v = diag + ((p[r-1] != c) ? 1 : 0);
@@ -44,15 +48,16 @@ static void kv_col_step(uint8_t c, const uint8_t* p, int M)
 
 #define K_BIT(x,r) (((x) >> (r)) & 1ul)
 /* relation between the Myers bit-vectors and the ghost column, row r (0-based bit) */
-#define K_BPM_ROW(VP,VN,r) ( (kv_C[(r)+1] - kv_C[r] >= -1) && (kv_C[(r)+1] - kv_C[r] <= 1) && \
+#define K_BPM_ROW(VP,VN,r) ( (kv_C[r] >= 0) && (kv_C[r] <= KV_BPM_ROWS) && (kv_C[(r)+1] >= 0) && (kv_C[(r)+1] <= KV_BPM_ROWS) && \
+                             (kv_C[(r)+1] - kv_C[r] >= -1) && (kv_C[(r)+1] - kv_C[r] <= 1) && \
                              (K_BIT(VP,r) == ((kv_C[(r)+1] - kv_C[r] == 1) ? 1ul : 0ul)) && \
                              (K_BIT(VN,r) == ((kv_C[(r)+1] - kv_C[r] == -1) ? 1ul : 0ul)) )
 
 #ifdef KV_CBMC
 uint8_t bpm(const uint8_t* t,const uint8_t* p,int n,int m)
-__CPROVER_requires(1 <= m && m <= 63 && 0 <= n && n <= KV_MAXN)
+__CPROVER_requires(1 <= m && m <= KV_BPM_MAXM && 0 <= n && n <= KV_MAXN)
 __CPROVER_requires(__CPROVER_is_fresh(t, n) && __CPROVER_is_fresh(p, m))
-__CPROVER_requires(__CPROVER_forall { int kv_r; (0 <= kv_r && kv_r < 63) ==> (kv_r >= m || p[kv_r] < 13) })
+__CPROVER_requires(__CPROVER_forall { int kv_r; (0 <= kv_r && kv_r < KV_BPM_MAXM) ==> (kv_r >= m || p[kv_r] < 13) })
 __CPROVER_assigns(__CPROVER_object_whole(kv_C), kv_min)
 __CPROVER_ensures(__CPROVER_return_value == kv_min)
 __CPROVER_ensures(kv_min >= 0 && kv_min <= m)
